@@ -5,6 +5,7 @@
 From Coq Require Import ZArith List Bool Arith Permutation.
 Import ListNotations.
 From PV Require Import Generated.Readspec C16.Model C16.ListLemmas C16.Proofs C16.AllFibers C16.Paths C16.Source.
+From PV Require Import Lib.NumpyInt C16.Typed C16.Storage C16.AlignModel C16.Align C16.AlignSource.
 Open Scope nat_scope.
 
 (* ---------------------------------------------------------------- plate-MJD keys *)
@@ -344,11 +345,11 @@ Theorem C16_nf_first_nodup : forall plates nfibers i p n,
 Proof. exact nf_first_nodup. Qed.
 Print Assumptions C16_nf_first_nodup.
 
-Theorem C16_readspec_model_all_eq_S : forall sv pl r2 r1 plate mjd reqs,
+Theorem C16_readspec_model_all_eq_S : forall sv pl r2 r1 plate mjd znum reqs,
   wf_survey sv = true ->
   request_vectors_all sv pl r2 r1 plate mjd = Some reqs ->
   (forall r, In r reqs -> valid_req r) ->
-  readspec_model_all sv pl r2 r1 plate mjd = readspec_S sv reqs None.
+  readspec_model_all sv pl r2 r1 plate mjd znum = readspec_S sv reqs znum.
 Proof. exact readspec_model_all_eq_S. Qed.
 Print Assumptions C16_readspec_model_all_eq_S.
 
@@ -443,3 +444,161 @@ Proof. exact (conj eq_refl (conj eq_refl eq_refl)). Qed.
 Example C16_ex_all_fibers :
   request_vectors_all ex_survey [mkPl 300 51700 1 1 2]%Z 1 1 (Ar [300; 266]%Z) None = Some (map (fun f => (266, 51630, f)) (map Z.of_nat (seq 1 640)) ++ map (fun f => (300, 51700, f)) (map Z.of_nat (seq 1 640)))%Z.
 Proof. exact eq_refl. Qed.
+
+(* ---------------------------------------------------------------- storage types (round 5)
+   The integer types readspec computes in.  gen_t_... (Generated/Readspec.v) are the TYPED expressions of the request
+   normalisation (one list entry per route: vector, scalar + np.zeros broadcast, fiber=None via np.arange) and of every
+   index computed from them; Typed.peval is NumPy 2 arithmetic (array (op) Python int keeps the array type and wraps,
+   OverflowError for a Python int that does not fit, np.array(x, dtype) is a wrapping cast), tied to NumPy on every run by
+   the CTyped correspondence cases. *)
+
+(* the range analysis is sound: when pcheck accepts an expression for given variable ranges, its evaluation in machine
+   types equals the evaluation over unbounded integers, whatever the storage types of the inputs *)
+Theorem C16_typed_range_analysis_sound : forall (ivs : vtab) (e : pexpr) (k : kind) (lo hi : Z),
+  pcheck ivs e = Some (k, lo, hi) ->
+  forall env, penv_ok ivs env ->
+  exists k', peval env e = PVal k' (pzeval (map snd env) e) /\ kind_ok k k' /\ (lo <= pzeval (map snd env) e <= hi)%Z.
+Proof. exact pcheck_sound. Qed.
+Print Assumptions C16_typed_range_analysis_sound.
+
+(* documented ranges (fibre 1..1000, DIMS0 and znum 1..1000, plate with at most five digits, MJD below 2^16), any
+   storage type of the caller's arrays that holds the values: a valid environment of the analysis *)
+Theorem C16_storage_ranges : forall tf fiber nper znum tp plate tm mjd ta a bigmjd,
+  fits tf fiber = true -> (1 <= fiber <= 1000)%Z -> (1 <= nper <= 1000)%Z -> (1 <= znum <= 1000)%Z ->
+  fits tp plate = true -> (0 <= plate <= 99999)%Z -> fits tm mjd = true -> (0 <= mjd <= 65535)%Z ->
+  fits ta a = true -> (0 <= a <= 999)%Z -> (0 <= bigmjd <= 65535)%Z ->
+  penv_ok c16_tab (c16_env tf fiber nper znum tp plate tm mjd ta a bigmjd).
+Proof. exact c16_env_ok. Qed.
+Print Assumptions C16_storage_ranges.
+
+(* fibre numbers given by the caller, every route of the source: the fibre vector holds the fibre number, and the row
+   indices of spPlate / photoPlate / spZbest (fiber-1) and of spZall ((fiber-1)*nper+znum-1) are computed without any
+   intermediate result leaving its machine type.  FAILS TO COMPILE when a route stores fibre numbers in 16 bits. *)
+Theorem C16_storage_rows_given : forall f env, In f gen_t_fiber_given -> penv_ok c16_tab env ->
+  let fiber := nth 0 (map snd env) 0%Z in
+  let nper := nth 1 (map snd env) 0%Z in
+  let znum := nth 2 (map snd env) 0%Z in
+  typed_is env f fiber /\
+  typed_is env (gen_t_img_row f) (fiber - 1)%Z /\
+  typed_is env (gen_t_photo_row f) (fiber - 1)%Z /\
+  typed_is env (gen_t_z_row (gen_t_zbest_fiber f)) (fiber - 1)%Z /\
+  typed_is env (gen_t_z_row (gen_t_znum_fiber f)) ((fiber - 1) * nper + znum - 1)%Z.
+Proof. exact storage_rows_given. Qed.
+Print Assumptions C16_storage_rows_given.
+
+(* fiber=None: fibre numbers np.arange(n)+1 written into the fibervec buffer (variable 5 = element of the arange) *)
+Theorem C16_storage_rows_all : forall f env, In f gen_t_fiber_all -> penv_ok c16_tab env ->
+  let fiber := (nth 5 (map snd env) 0 + 1)%Z in
+  let nper := nth 1 (map snd env) 0%Z in
+  let znum := nth 2 (map snd env) 0%Z in
+  typed_is env f fiber /\
+  typed_is env (gen_t_img_row f) (fiber - 1)%Z /\
+  typed_is env (gen_t_photo_row f) (fiber - 1)%Z /\
+  typed_is env (gen_t_z_row (gen_t_zbest_fiber f)) (fiber - 1)%Z /\
+  typed_is env (gen_t_z_row (gen_t_znum_fiber f)) ((fiber - 1) * nper + znum - 1)%Z.
+Proof. exact storage_rows_all. Qed.
+Print Assumptions C16_storage_rows_all.
+
+(* every (platevec route, mjdvec route): the uint64 key computed by the source is the model's key, and >>16, &0xffff
+   in uint64 give back plate and MJD *)
+Theorem C16_storage_key : forall pv mv env, In pv plate_routes -> In mv mjd_routes -> penv_ok c16_tab env ->
+  let plate := nth 3 (map snd env) 0%Z in
+  let mjd := pzeval (map snd env) mv in
+  (0 <= mjd < 2 ^ 16)%Z /\
+  typed_is env (gen_t_key pv mv) (key plate mjd) /\
+  typed_is env (gen_t_key_plate (gen_t_key pv mv)) plate /\
+  typed_is env (gen_t_key_mjd (gen_t_key pv mv)) mjd.
+Proof. exact storage_key. Qed.
+Print Assumptions C16_storage_key.
+
+(* what every route denotes, and that the typed index expressions erase to the untyped generated ones *)
+Theorem C16_storage_routes_denote : forall env,
+  (forall f, In f gen_t_fiber_given -> pzeval env f = nth 0 env 0%Z) /\
+  (forall f, In f gen_t_fiber_all -> pzeval env f = (nth 5 env 0 + 1)%Z) /\
+  (forall pv, In pv plate_routes -> pzeval env pv = nth 3 env 0%Z) /\
+  (forall mv, In mv gen_t_mjd_given -> pzeval env mv = nth 4 env 0%Z) /\
+  (forall mv, In mv gen_t_mjd_latest -> pzeval env mv = nth 6 env 0%Z) /\
+  (forall f, pzeval env (gen_t_z_row (gen_t_znum_fiber f)) = gen_z_row (gen_znum_fiber (pzeval env f) (nth 1 env 0%Z) (nth 2 env 0%Z))) /\
+  (forall pv mv, pzeval env (gen_t_key pv mv) = gen_key (pzeval env pv) (pzeval env mv)).
+Proof.
+  exact (fun env => conj (fun f H => fiber_given_denotes f env H) (conj (fun f H => fiber_all_denotes f env H)
+         (conj (fun pv H => plate_denotes pv env H) (conj (fun mv H => mjd_given_denotes mv env H)
+         (conj (fun mv H => mjd_latest_denotes mv env H)
+         (conj (fun f => proj2 (proj2 (proj2 (erase_rows f env)))) (fun pv mv => proj1 (erase_key pv mv env)))))))).
+Qed.
+Print Assumptions C16_storage_routes_denote.
+
+(* non-vacuity: a realistic environment (fibre 1000 held in an int16 array by the caller, 134 fits per fibre, five-digit
+   plate) is covered; the routes exist; and the analysis discriminates -- fibre numbers KEPT in int16 are rejected, and
+   the spZall row of fibre 246, znum 134 then wraps to a negative index (a row of another fibre) *)
+Example C16_ex_storage :
+  penv_ok c16_tab (c16_env I16 1000 134 134 I32 10000 U16 65535 I64 999 65535) /\
+  (gen_t_fiber_given <> [] /\ gen_t_fiber_all <> [] /\ plate_routes <> [] /\ mjd_routes <> []) /\
+  all_checked c16_tab c16_index_exprs = true /\
+  all_checked c16_tab [gen_t_z_row (gen_t_znum_fiber (PCast I16 (PArr 0)))] = false /\
+  peval (c16_env I64 246 134 134 I32 4055 I32 55359 I64 0 0) (gen_t_z_row (gen_t_znum_fiber (PCast I16 (PArr 0))))
+    = PVal (Some I16) (-32573)%Z /\
+  peval (c16_env I64 246 134 134 I32 4055 I32 55359 I64 0 0) (gen_t_z_row (gen_t_znum_fiber (PCast I32 (PArr 0))))
+    = PVal (Some I32) 32963%Z.
+Proof. exact ex_storage. Qed.
+
+(* ---------------------------------------------------------------- align=True: pixel shift from the wavelength solutions (round 5)
+   align_step / align_chain (C16/AlignModel.v) transliterate the align branch with an INTEGER shift; the real code passes
+   the float64 np.floor(...) on to spec_append and raises TypeError whenever two files differ in COEFF0 (notes/C16.md,
+   fixes/C16-align-float-pixshift.diff), so these theorems are about the intended algorithm and are tied to the source
+   text by the extracted pieces (C16_source_align), not by runs of the unrepaired code. *)
+
+(* the rounding rule: the shift is the integer nearest to (COEFF0 - min COEFF0)/COEFF1, ties up; on a common grid of
+   step COEFF1 it is exactly the difference of the grid indices *)
+Theorem C16_align_pixshift_rounding : forall c0 min0 c1 : Z, (0 < c1)%Z ->
+  let ps := pixshift_of c0 min0 c1 in (2 * ps * c1 <= 2 * (c0 - min0) + c1 < 2 * (ps + 1) * c1)%Z.
+Proof. exact pixshift_rounding. Qed.
+Print Assumptions C16_align_pixshift_rounding.
+
+Theorem C16_align_pixshift_on_grid : forall g k m c1 : Z, (0 < c1)%Z -> pixshift_of (g + k * c1) (g + m * c1) c1 = (k - m)%Z.
+Proof. exact pixshift_on_grid. Qed.
+Print Assumptions C16_align_pixshift_on_grid.
+
+(* rounding + spec_append composition: for ANY blocks (rectangular, non-empty; any order, repeated COEFF0) whose COEFF0
+   lie on the grid g + k*c1, the aligned accumulation returns the rows of the blocks in order, each stored at a column
+   offset with  origin + c1*offset = its own COEFF0  (origin = the one value recorded for every row, the smallest
+   COEFF0: some row has offset 0), inside a common width *)
+Theorem C16_align_chain_unshifted : forall (c1 g : Z) (blocks : list (img * Z)),
+  (0 < c1)%Z -> blocks <> [] -> (forall bk, In bk blocks -> wf_block bk) ->
+  exists W m entries,
+    align_chain c1 (map (fun bk => (fst bk, g + snd bk * c1)%Z) blocks)
+    = Some (rows_of entries W, repeat (g + m * c1)%Z (length entries)) /\
+    map (fun e => (e_row e, e_c0 e)) entries = rows_with_c0 (map (fun bk => (fst bk, g + snd bk * c1)%Z) blocks) /\
+    aligned c1 (g + m * c1)%Z W entries.
+Proof. exact align_chain_unshifted. Qed.
+Print Assumptions C16_align_chain_unshifted.
+
+(* pixel level ("unshifted"): pixel p of stored row i sits in column offset+p, the wavelength of that column computed
+   from the common origin is the pixel's own wavelength COEFF0 + COEFF1*p, and the rest of the row is zero *)
+Theorem C16_aligned_pixels : forall (c1 origin : Z) (W : nat) (entries : list entry) (i : nat) (e : entry),
+  aligned c1 origin W entries -> nth_error entries i = Some e ->
+  exists o, nth_error (rows_of entries W) i = Some o /\ length o = W /\
+    (forall p v, nth_error (e_row e) p = Some v ->
+       nth_error o (e_off e + p) = Some v /\
+       (origin + c1 * Z.of_nat (e_off e + p) = e_c0 e + c1 * Z.of_nat p)%Z) /\
+    (forall j, j < W -> (j < e_off e \/ e_off e + length (e_row e) <= j) -> nth_error o j = Some 0%Z).
+Proof. exact aligned_pixels. Qed.
+Print Assumptions C16_aligned_pixels.
+
+(* tie to the source text: np.floor((coeff0[0] - mincoeff0)/coeff1[0] + 0.5) over the rationals is pixshift_of, and the
+   COEFF0 updates of align_step are the extracted ones *)
+Theorem C16_source_align : forall c1 : Z,
+  (forall c0 min0, (0 < c1)%Z -> gen_align_ps c0 min0 c1 = pixshift_of c0 min0 c1) /\
+  (forall acc all0 b c0,
+     align_step c1 (acc, all0) (b, c0) =
+     let ps := pixshift_of c0 (list_min_Z 0%Z all0) c1 in
+     (spec_append acc b ps,
+      (if gen_align_shift_new ps then all0 else map (fun a => gen_align_old_c0 a ps c1) all0)
+      ++ repeat (if gen_align_shift_new ps then gen_align_new_c0 c0 ps c1 else c0) (length b))).
+Proof. exact (fun c1 => conj (fun c0 min0 H => src_align_ps c0 min0 c1 H) (src_align_step c1)). Qed.
+Print Assumptions C16_source_align.
+
+Example C16_ex_align :
+  align_chain 2 [([[1; 2; 3]], 10); ([[4; 5]; [6; 7]], 6); ([[8; 9; 10]], 14)]%Z
+  = Some ([[0; 0; 1; 2; 3; 0; 0]; [4; 5; 0; 0; 0; 0; 0]; [6; 7; 0; 0; 0; 0; 0]; [0; 0; 0; 0; 8; 9; 10]], [6; 6; 6; 6])%Z.
+Proof. exact align_chain_example. Qed.
